@@ -86,8 +86,11 @@ def main():
         if os.path.exists(old):
             prev = json.load(open(old))
             hist = list(prev.get("history") or [])
-            if prev.get("caught_by") and prev["caught_by"] != caught:
-                hist.append({"earlier_attempt": prev["caught_by"], "note": "result of an earlier run of the checks (machinery as it was then); see DESIGN.md section 11 for what was strengthened in between"})
+            changed = {k: v for k, v in (prev.get("caught_by") or {}).items() if k in caught and v != caught[k]}
+            if changed:
+                hist.append({"earlier_attempt": changed, "note": "result of an earlier run of the checks (machinery as it was then); see DESIGN.md section 11 for what was strengthened in between"})
+            # checks that were not re-run keep their recorded result
+            meta["caught_by"] = {**(prev.get("caught_by") or {}), **caught}
             if hist:
                 meta["history"] = hist
             for k in ("breaks", "summary", "needs_to_manifest", "files_changed", "origin"):
